@@ -52,7 +52,7 @@ Bump(s, f) == [s EXCEPT ![f] = @ + 1]
 
 TInit == l = 1 /\ stats = [judged |-> 0, exact |-> 0, fuzzy |-> 0, notwf |-> 0, cmds |-> 0,
                            withsubrs |-> 0, withmask |-> 0, withwidth |-> 0, deep |-> 0, blends |-> 0, empty |-> 0,
-                           seac |-> 0]
+                           seac |-> 0, seacsubr |-> 0]
 
 \* r is an operator parameter so that the interpretation is evaluated once per event
 Stats(r) ==
@@ -64,8 +64,10 @@ Stats(r) ==
            f == IF r.maxDepth > 2 THEN Bump(d, "deep") ELSE d
            g == IF r.seenBlend THEN Bump(f, "blends") ELSE f
            h == IF r.cmds = <<>> THEN Bump(g, "empty") ELSE g
-           k == IF r.seac # 0 THEN Bump(h, "seac") ELSE h IN      \* an accented character: both components resolved and drawn
-       [k EXCEPT !.cmds = @ + Len(r.cmds)]
+           k == IF r.seac # 0 THEN Bump(h, "seac") ELSE h         \* an accented character: both components resolved and drawn
+           \* ... whose accent calls a subroutine that returns before the accent's end
+           n == IF r.compRet[2] THEN Bump(k, "seacsubr") ELSE k IN
+       [n EXCEPT !.cmds = @ + Len(r.cmds)]
   ELSE Bump(stats, "notwf")
 
 Judge(e, r) ==
